@@ -3,6 +3,7 @@
 package s3db
 
 import (
+	"github.com/jrhy/mast"
 	"github.com/jrhy/s3db/kv"
 	"google.golang.org/protobuf/proto"
 )
@@ -13,3 +14,6 @@ func verifS3(*S3Options) (kv.S3Interface, bool) { return nil, false }
 
 // verifMarshal encodes a node exactly as the shipped code does.
 func verifMarshal(m proto.Message) ([]byte, error) { return proto.Marshal(m) }
+
+// verifNodeCache returns the node cache unchanged.
+func verifNodeCache(c mast.NodeCache) mast.NodeCache { return c }
